@@ -173,6 +173,7 @@ EqFieldsBad(N, o, e) ==
        \cup chk("advanced_deep_equal(no PIs)", o.adnp = AdvancedDeepEqual(N, a, b, "nopi", "exact"))
        \cup chk("advanced_deep_equal(elements+text, trim)", o.adet = AdvancedDeepEqual(N, a, b, "elemtext", "trim"))
        \cup chk("advanced_deep_equal(not b)", o.adnb = AdvancedDeepEqual(N, a, b, "notb", "exact"))
+       \cup chk("advanced_deep_equal(a comparison under which no two strings are equal)", o.adnv = AdvancedNever(N, a, b))
        \cup chk("shallow_equal", o.se = ShallowEqualIgnoring(N, a, b, {}))
        \cup UNION {chk("shallow_equal_ignore_attributes#" \o ToString(j),
                        o.sei[j] = B2I(ShallowEqualIgnoring(N, a, b, PairSet(e.ign[j]))))
